@@ -263,6 +263,7 @@ func c01Body(c *run.Ctx) {
 		done   chan error
 	}
 	var rc *racer
+	racerPending := false
 	settleRacer := func(s *sim.Sim, h *sim.Hand) {
 		if rc == nil {
 			return
@@ -273,7 +274,14 @@ func c01Body(c *run.Ctx) {
 		select {
 		case err = <-r.done:
 		case <-time.After(s.StepWait):
-			c.Failf("C01.racing-rebuy-stuck", "a re-buy of %s issued while hand %d was opening did not return", r.id, len(s.Hands))
+			if !pokertable.VerifTryLock(s.TE) {
+				// the open was refused and the engine sits in its 30 s retry loop holding its lock
+				// (C04 / C08 findings): the re-buy waits behind it; nothing to judge for C01
+				s.Label("racing_rebuy_blocked_behind_open_retry")
+				racerPending = true
+				return
+			}
+			c.Failf("C01.racing-rebuy-stuck", "a re-buy of %s issued while hand %d was opening did not return although the engine lock is free", r.id, len(s.Hands))
 		}
 		c.Ch.Note("  racing re-buy %s +%d -> %v", r.id, r.chips, err)
 		if err != nil {
@@ -339,7 +347,7 @@ func c01Body(c *run.Ctx) {
 	if l != nil {
 		settleRacer(s, nil)
 	}
-	if l != nil && s.Stall == "" {
+	if l != nil && s.Stall == "" && !racerPending {
 		l.checkSum("end of case", s.Now())
 	}
 	nontrivial := false
